@@ -8,6 +8,8 @@
 //! usage: concsim run --tier T --seed S --shard I/N --runs R --out FILE
 //!        concsim replay FILE
 
+mod lsp;
+mod sched;
 mod workload;
 
 use simcore::observe::{Observer, Strictness};
@@ -557,6 +559,45 @@ fn judge(events: &[Value], failure: Option<&str>) -> Option<(String, String)> {
 fn run_child(run_dir: &PathBuf, key: u64, workload: &Workload) -> Value {
     let run_dir = run_dir.clone();
     let workload = Arc::new(workload.clone());
+    let scheduler = workload.scheduler;
+    run_child_with(key, scheduler, move |log| scenario(Arc::clone(&workload), run_dir.clone(), log))
+}
+
+/// Hook H3: cajun's blocking analysis jobs run on shuttle threads.
+fn blocking_spawner(job: cajun::verif::BlockingJob) {
+    shuttle::thread::spawn(move || {
+        if let Err(payload) = catch_unwind(AssertUnwindSafe(move || job())) {
+            caught(&*payload);
+        }
+    });
+}
+
+/// One execution of the language-server family: the real server over a scripted transport.
+fn run_lsp_child(run_dir: &PathBuf, key: u64, workload: &lsp::LspWorkload) -> Value {
+    let run_dir = run_dir.clone();
+    let workload = Arc::new(workload.clone());
+    let scheduler = workload.scheduler;
+    run_child_with(key, scheduler, move |log| {
+        let world = lsp::prepare_world(&run_dir, &workload);
+        let served = lsp::serve(&world, &workload.bursts, workload.io_seed, workload.short_io);
+        let masked: Vec<Value> = served
+            .frames
+            .iter()
+            .map(|frame| serde_json::from_str(&frame.to_string().replace(&world.display().to_string(), "<W>")).unwrap())
+            .collect();
+        log.push(json!({"kind": "lsp-frames", "frames": masked, "release_points": served.release_points}));
+        let judgement = lsp::judge(&world, &workload, &served);
+        log.push(json!({
+            "kind": "lsp-judgement",
+            "violation": judgement.violation.as_ref().map(|(class, message)| json!({"class": class, "message": message.replace(&world.display().to_string(), "<W>")})),
+            "probes": judgement.probes, "outcome": judgement.outcome,
+        }));
+    })
+}
+
+fn run_child_with(
+    key: u64, scheduler: SchedulerChoice, body: impl Fn(Arc<Log>) + Send + Sync + 'static,
+) -> Value {
     let outcome = run_forked(CHILD_TIMEOUT_S, move || {
         shim::reseed(key);
         {
@@ -581,9 +622,9 @@ fn run_child(run_dir: &PathBuf, key: u64, workload: &Workload) -> Value {
             }));
         }
         zydeco_utils::verif::set_scheduling_hook(key_space_point);
+        cajun::verif::set_blocking_spawner(blocking_spawner);
         let log = Arc::new(Log::default());
         let log_for_run = Arc::clone(&log);
-        let workload_for_run = Arc::clone(&workload);
         let result = catch_unwind(AssertUnwindSafe(move || {
             let mut config = shuttle::Config::new();
             config.stack_size = 64 << 20;
@@ -591,14 +632,18 @@ fn run_child(run_dir: &PathBuf, key: u64, workload: &Workload) -> Value {
             config.failure_persistence = shuttle::FailurePersistence::None;
             unsafe { __shuttle_benign_unwind_reset() };
             IN_SHUTTLE.store(1, Ordering::Relaxed);
-            let body = move || scenario(Arc::clone(&workload_for_run), run_dir.clone(), Arc::clone(&log_for_run));
-            match workload.scheduler {
+            let body = move || body(Arc::clone(&log_for_run));
+            match scheduler {
                 | SchedulerChoice::Random { seed } => {
                     let scheduler = shuttle::scheduler::RandomScheduler::new_from_seed(seed, 1);
                     shuttle::Runner::new(scheduler, config).run(body);
                 }
                 | SchedulerChoice::Pct { seed, depth } => {
                     let scheduler = shuttle::scheduler::PctScheduler::new_from_seed(seed, depth, 1);
+                    shuttle::Runner::new(scheduler, config).run(body);
+                }
+                | SchedulerChoice::Horizon { seed, depth, horizon } => {
+                    let scheduler = sched::HorizonPct::new(seed, depth, horizon);
                     shuttle::Runner::new(scheduler, config).run(body);
                 }
             }
@@ -648,6 +693,7 @@ fn main() {
     match args.get(1).map(String::as_str) {
         | Some("run") => run(&args[2..]),
         | Some("replay") => replay(&args[2]),
+        | Some("lsp-run") => run_lsp(&args[2..]),
         | _ => {
             eprintln!("usage: concsim run|replay ...");
             std::process::exit(2);
@@ -801,9 +847,177 @@ fn run(args: &[String]) {
     std::fs::write(&out, serde_json::to_vec(&record).unwrap()).expect("write shard record");
 }
 
+fn verdict_lsp(record: &Value) -> Option<(String, String)> {
+    if let Some(failure) = record["failure"].as_str() {
+        if let Some(first) = record["first_panic"].as_str() {
+            let first = first.replace(|c: char| c.is_ascii_digit(), "#");
+            if !first.contains("deadlock") {
+                return Some(("C17:lsp-panic".into(), format!("the server died after a panic: {}", clip(&first))));
+            }
+        }
+        let class = if failure.contains("deadlock") { "C17:lsp-deadlock" } else { "C17:lsp-execution-died" };
+        return Some((class.into(), format!("the server did not finish the script: {}", clip(&failure.replace(|c: char| c.is_ascii_digit(), "#")))));
+    }
+    let events = record["events"].as_array()?;
+    let judgement = events.iter().find(|e| e["kind"] == "lsp-judgement")?;
+    let violation = &judgement["violation"];
+    Some((violation["class"].as_str()?.to_string(), violation["message"].as_str()?.to_string()))
+}
+
+fn minimise_lsp(run_dir: &PathBuf, key: u64, workload: &lsp::LspWorkload, class: &str, budget: usize) -> lsp::LspWorkload {
+    let mut best = workload.clone();
+    let mut spent = 0usize;
+    let mut progress = true;
+    while progress && spent < budget {
+        progress = false;
+        'candidates: for candidate in best.reductions() {
+            for attempt in 0..4u64 {
+                if spent >= budget {
+                    break 'candidates;
+                }
+                spent += 1;
+                let mut trial = candidate.clone();
+                if attempt > 0 {
+                    trial.scheduler = trial.scheduler.reseeded(mix(key, 993, attempt));
+                }
+                let record = run_lsp_child(run_dir, key, &trial);
+                if verdict_lsp(&record).map(|v| v.0 == class).unwrap_or(false) {
+                    best = trial;
+                    progress = true;
+                    break 'candidates;
+                }
+            }
+        }
+    }
+    best
+}
+
+fn run_lsp(args: &[String]) {
+    let tier = argument(args, "--tier").unwrap_or("quick").to_string();
+    let seed: u64 = argument(args, "--seed").and_then(|s| s.parse().ok()).unwrap_or(zysim_common::DEFAULT_SEED);
+    let (shard, shards) = argument(args, "--shard")
+        .and_then(|s| s.split_once('/'))
+        .map(|(a, b)| (a.parse::<u64>().unwrap(), b.parse::<u64>().unwrap()))
+        .unwrap_or((0, 1));
+    let runs: u64 = argument(args, "--runs").and_then(|s| s.parse().ok()).unwrap_or(100);
+    let out = argument(args, "--out").expect("--out").to_string();
+    let keep_events = argument(args, "--events").is_some();
+    let mut executions = 0u64;
+    let mut workloads = BTreeSet::new();
+    let mut outcomes = BTreeSet::new();
+    let mut probes: BTreeMap<String, u64> = BTreeMap::new();
+    let mut samples = Vec::new();
+    let mut violations = Vec::new();
+    let mut event_logs = Vec::new();
+    let mut frames_total = 0u64;
+    let mut index = shard;
+    while index < runs {
+        let seed_i = mix(seed, ENGINE + 100, index);
+        let generated = lsp::generate(seed_i, tier == "thorough");
+        let key = mix(seed_i, 77, 0);
+        let run_dir = zysim_common::run_directory("lsp", seed, index);
+        workloads.insert(zysim_common::fnv1a(generated.workload.abstract_text().as_bytes()));
+        for schedule in 0..generated.schedules.max(1) {
+            let mut workload = generated.workload.clone();
+            if schedule > 0 {
+                workload.scheduler = workload.scheduler.reseeded(mix(seed_i, 55, schedule));
+            }
+            let record = run_lsp_child(&run_dir, key, &workload);
+            executions += 1;
+            let events: Vec<Value> = record["events"].as_array().cloned().unwrap_or_default();
+            let mut outcome_text = String::new();
+            for event in &events {
+                if event["kind"] == "lsp-frames" {
+                    frames_total += event["frames"].as_array().map(|f| f.len() as u64).unwrap_or(0);
+                }
+                if event["kind"] == "lsp-judgement" {
+                    for (name, count) in event["probes"].as_object().into_iter().flatten() {
+                        *probes.entry(format!("lsp:{name}")).or_default() += count.as_u64().unwrap_or(0);
+                    }
+                    outcome_text = event["outcome"].as_str().unwrap_or("").to_string();
+                }
+            }
+            *probes.entry("lsp:shard_lock_contended".into()).or_default() += record["contended"].as_u64().unwrap_or(0);
+            outcomes.insert(zysim_common::fnv1a(format!("{}|{outcome_text}", generated.workload.abstract_text()).as_bytes()));
+            if samples.len() < 2 && index % 5 == 1 && schedule == 0 {
+                samples.push(json!({"index": index, "seed": seed_i.to_string(), "workload": workload.to_json(), "outcomes": outcome_text}));
+            }
+            if keep_events {
+                event_logs.push(json!({"index": index, "schedule": schedule, "events": events, "failure": record["failure"]}));
+            }
+            if let Some((class, message)) = verdict_lsp(&record) {
+                if violations.len() < 4 {
+                    let minimal = minimise_lsp(&run_dir, key, &workload, &class, 120);
+                    let confirm = run_lsp_child(&run_dir, key, &minimal);
+                    let (final_workload, final_message, final_record) = match verdict_lsp(&confirm) {
+                        | Some((confirmed, message)) if confirmed == class => (minimal, message, confirm),
+                        | _ => (workload.clone(), message, record.clone()),
+                    };
+                    violations.push(json!({
+                        "property": "C17", "engine": "concsim", "family": "lsp", "class": class, "seed": seed.to_string(),
+                        "run_index": index, "run_seed": seed_i.to_string(), "key": key.to_string(),
+                        "run_dir": run_dir.to_string_lossy(),
+                        "workload": final_workload.to_json(), "message": final_message,
+                        "script": final_workload.bursts.iter().map(|b| b.iter().map(|m| m.label()).collect::<Vec<_>>()).collect::<Vec<_>>(),
+                        "trace": final_record["events"],
+                    }));
+                } else {
+                    violations.push(json!({"property": "C17", "class": class, "run_index": index, "unminimised": true}));
+                }
+                break;
+            }
+        }
+        let _ = std::fs::remove_dir_all(&run_dir);
+        index += shards;
+    }
+    let record = json!({
+        "shard": shard, "shards": shards, "tier": tier, "seed": seed.to_string(),
+        "executions": executions, "workloads": workloads.iter().map(|w| w.to_string()).collect::<Vec<_>>(),
+        "outcomes": outcomes.iter().map(|w| w.to_string()).collect::<Vec<_>>(),
+        "probes": probes, "samples": samples, "violations": violations, "logical_steps": frames_total,
+        "event_logs": event_logs,
+    });
+    std::fs::write(&out, serde_json::to_vec(&record).unwrap()).expect("write shard record");
+}
+
+fn replay_lsp(value: &Value) {
+    let workload = lsp::LspWorkload::from_json(&value["workload"]).expect("replay file: lsp workload");
+    let key: u64 = value["key"].as_str().and_then(|s| s.parse().ok()).unwrap_or(1);
+    let run_dir = PathBuf::from(value["run_dir"].as_str().unwrap_or("/dev/shm/zysim/replay-lsp"));
+    let _ = std::fs::remove_dir_all(&run_dir);
+    std::fs::create_dir_all(&run_dir).expect("create scratch directory");
+    let record = run_lsp_child(&run_dir, key, &workload);
+    let _ = std::fs::remove_dir_all(&run_dir);
+    for (b, burst) in workload.bursts.iter().enumerate() {
+        println!("burst {b}: {}", burst.iter().map(|m| m.label()).collect::<Vec<_>>().join(" ; "));
+    }
+    for event in record["events"].as_array().into_iter().flatten() {
+        if event["kind"] == "lsp-frames" {
+            for frame in event["frames"].as_array().into_iter().flatten() {
+                println!("{frame}");
+            }
+        }
+    }
+    match verdict_lsp(&record) {
+        | Some((class, message)) => {
+            println!("{message}");
+            println!("REPRODUCED property=C17 class={class}");
+            let expected = value["class"].as_str().unwrap_or(&class).to_string();
+            std::process::exit(if expected == class { 1 } else { 3 });
+        }
+        | None => {
+            println!("NOT-REPRODUCED");
+            std::process::exit(0);
+        }
+    }
+}
+
 fn replay(path: &str) {
     let text = std::fs::read_to_string(path).expect("read replay file");
     let value: Value = serde_json::from_str(&text).expect("parse replay file");
+    if value["workload"]["family"] == "lsp" {
+        return replay_lsp(&value);
+    }
     let workload = Workload::from_json(&value["workload"]).expect("replay file: workload");
     let key: u64 = value["key"].as_str().and_then(|s| s.parse().ok()).unwrap_or(1);
     let run_dir = PathBuf::from(value["run_dir"].as_str().unwrap_or("/dev/shm/zysim/replay"));
